@@ -51,10 +51,9 @@ fn scenarios(thorough: bool) -> Vec<Sc> {
     }
     // a message larger than one segment (two segments) next to small ones
     v.push(Sc { name: "N3-multi-segment-message", pipe: 4096, senders: vec![vec![bf_block(70_000), bf_block(3)], vec![ka(2), ka(3)]], mode: 0 });
-    // two sends queued on ONE protocol, each larger than a segment, against back-pressure: the
-    // segments of one message must not be interleaved with the other's (either message may
-    // come first: both sends are in flight at once, as in the interface's FuturesUnordered)
-    v.push(Sc { name: "N4-two-multi-segment-sends-one-protocol", pipe: 4096, senders: vec![vec![bf_block(70_000)], vec![bf_block(66_000)]], mode: 0 });
+    // (two sends on ONE protocol at once are not a scenario here: since the interface keeps one
+    // operation per peer in flight, `send` never runs twice on one writer; queued sends on one
+    // protocol are explored on the real TcpInterface in c20_iface.rs)
     v
 }
 
